@@ -201,7 +201,7 @@ async fn run_remote(
     join_handles(handles).await;
 
     if !plan.delete.is_empty() {
-        apply_remote_deletes(dir, host, remote_root, local_root, &plan.delete).await;
+        apply_remote_deletes(dir, host, remote_root, local_root, &plan.delete, &progress).await;
     }
     report(start, &progress, &plan, &src_desc, &dst_desc, opts.verbose)
 }
@@ -232,11 +232,12 @@ async fn apply_remote_deletes(
     remote_root: &str,
     local_root: &Path,
     dels: &[PathBuf],
+    progress: &TransferProgress,
 ) {
     match dir {
         Dir::Pull => {
             for rel in dels {
-                let _ = std::fs::remove_file(local_root.join(rel));
+                remove_stale(&local_root.join(rel), rel, progress);
             }
         }
         Dir::Push => {
@@ -247,7 +248,9 @@ async fn apply_remote_deletes(
             for rel in dels {
                 let _ = write!(list, "{}/{}\0", remote_root, rel.display());
             }
-            if let Ok(mut child) = tokio::process::Command::new("ssh")
+            // A removal that did not happen must not look like one that did:
+            // any failure along the way counts as a failed file (non-zero exit).
+            let outcome = match tokio::process::Command::new("ssh")
                 .arg(host)
                 .arg("xargs -0 rm -f --")
                 .stdin(std::process::Stdio::piped())
@@ -255,15 +258,35 @@ async fn apply_remote_deletes(
                 .stderr(std::process::Stdio::piped())
                 .spawn()
             {
-                if let Some(mut stdin) = child.stdin.take() {
-                    let _ = stdin.write_all(list.as_bytes()).await;
-                    drop(stdin);
+                Ok(mut child) => {
+                    let sent = match child.stdin.take() {
+                        Some(mut stdin) => stdin.write_all(list.as_bytes()).await,
+                        None => Ok(()),
+                    };
+                    match (sent, child.wait_with_output().await) {
+                        (Ok(()), Ok(out)) if out.status.success() => Ok(()),
+                        (Err(e), _) | (_, Err(e)) => Err(e.to_string()),
+                        (_, Ok(out)) => Err(String::from_utf8_lossy(&out.stderr).trim_end().to_string()),
+                    }
                 }
-                let _ = child.wait_with_output().await;
+                Err(e) => Err(format!("ssh spawn: {e}")),
+            };
+            if let Err(e) = outcome {
+                progress.record_err("--delete", &e);
             }
         }
     }
     eprintln!("Deleted {} stale file(s) on the destination", dels.len());
+}
+
+/// Remove one stale destination file; a failure is recorded (a file that is
+/// already gone is what `--delete` asks for, not a failure).
+fn remove_stale(path: &Path, rel: &Path, progress: &TransferProgress) {
+    match std::fs::remove_file(path) {
+        Ok(()) => {}
+        Err(e) if e.kind() == std::io::ErrorKind::NotFound => {}
+        Err(e) => progress.record_err(&rel.display().to_string(), &format!("delete: {e}")),
+    }
 }
 
 #[allow(clippy::cast_possible_truncation)]
@@ -313,7 +336,7 @@ async fn run_local(
 
     if !plan.delete.is_empty() {
         for rel in &plan.delete {
-            let _ = std::fs::remove_file(dst.join(rel));
+            remove_stale(&dst.join(rel), rel, &progress);
         }
         eprintln!("Deleted {} stale file(s)", plan.delete.len());
     }
